@@ -211,8 +211,8 @@ theorem dict_json_assertions_kept_collection (dflt : String → List (String × 
 renamed, with the reload names of arithmetic operands -/
 theorem dict_json_skeleton (sig : String → List String) (dflt : String → List (String × Scal V))
     (t : PN V) (base : Nat) :
-    erase sig (dictRT dflt t base) = renameIds (rtSigma t base) (canonNames (erase sig t)) := by
-  rw [dictRT_eq, erase_rename, erase_canon]
+    pnErase sig (dictRT dflt t base) = renameIds (rtSigma t base) (canonNames (pnErase sig t)) := by
+  rw [dictRT_eq, pnErase_rename, pnErase_canon]
 
 /-- **Supplying the same value for each parameter yields the equal instance - for every composition**,
 arithmetic priors included (`NoArith` is no longer a hypothesis: the instance does not depend on operand
@@ -220,7 +220,7 @@ names). -/
 theorem dict_json_same_instance [Inhabited V] (ops : Ops V) (sig : String → List String)
     (dflt : String → List (String × Scal V)) (t : PN V) (base : Nat) (ρ ρ' : Nat → Inst V)
     (hρ : ∀ i, ρ' (rtSigma t base i) = ρ i) :
-    instW ops ρ' (erase sig (dictRT dflt t base)) = instW ops ρ (erase sig t) := by
+    instW ops ρ' (pnErase sig (dictRT dflt t base)) = instW ops ρ (pnErase sig t) := by
   rw [dict_json_skeleton, same_values_same_instance ops _ _ ρ ρ' hρ, instW_canonNames]
 
 /-- the same for the abstract dictionary form of `DictForm.lean`: `dict_form_roundtrip`'s instance clause
@@ -234,9 +234,9 @@ theorem dict_form_same_instance [Inhabited V] (ops : Ops V) (t : Node V) (base :
 prior are renamed: known finding C08-arith-names): the advertised places are the same and the number of
 free parameters is the same -/
 theorem dict_json_paths_count (sig : String → List String) (dflt : String → List (String × Scal V))
-    (t : PN V) (base : Nat) (h : NoArith (erase sig t)) :
-    (walk (erase sig (dictRT dflt t base))).map (·.1) = (walk (erase sig t)).map (·.1) ∧
-    count (erase sig (dictRT dflt t base)) = count (erase sig t) := by
+    (t : PN V) (base : Nat) (h : NoArith (pnErase sig t)) :
+    (walk (pnErase sig (dictRT dflt t base))).map (·.1) = (walk (pnErase sig t)).map (·.1) ∧
+    count (pnErase sig (dictRT dflt t base)) = count (pnErase sig t) := by
   rw [dict_json_skeleton, canonNames_of_no_arith _ h]
   refine ⟨paths_preserved _ _, count_preserved _ _ ?_⟩
   intro i hi j hj he
@@ -247,7 +247,7 @@ theorem dict_json_paths_count (sig : String → List String) (dflt : String → 
 /-- **two places share a parameter after the reload iff they did before** (all compositions; places as the
 reloaded model advertises them) -/
 theorem dict_json_sharing (sig : String → List String) (t : PN V) (base : Nat)
-    (p q : Path) (i j : Nat) (hp : (p, i) ∈ walk (erase sig t)) (hq : (q, j) ∈ walk (erase sig t)) :
+    (p q : Path) (i j : Nat) (hp : (p, i) ∈ walk (pnErase sig t)) (hq : (q, j) ∈ walk (pnErase sig t)) :
     rtSigma t base i = rtSigma t base j ↔ i = j :=
   ⟨rtSigma_injOn t base i (walk_erase_sub sig t _ hp) j (walk_erase_sub sig t _ hq), fun h => h ▸ rfl⟩
 
@@ -294,8 +294,8 @@ theorem pickle_is_identity (t : PN V) : pickleRT t = t := renamePN_id t
 
 /-- … hence the parameter order (paths in order of prior id), the count and every instance are unchanged -/
 theorem pickle_keeps_order (sig : String → List String) (t : PN V) :
-    pathPriors (erase sig (pickleRT t)) = pathPriors (erase sig t) ∧
-    count (erase sig (pickleRT t)) = count (erase sig t) := by
+    pathPriors (pnErase sig (pickleRT t)) = pathPriors (pnErase sig t) ∧
+    count (pnErase sig (pickleRT t)) = count (pnErase sig t) := by
   rw [pickle_is_identity]; exact ⟨rfl, rfl⟩
 
 /-- any route that satisfies the assumption keeps the composition through any number of round trips -/
@@ -349,9 +349,9 @@ def witnessDflt : String → List (String × Scal Nat)
 prior 9 occurs in the root's assertion only and still gets its own id -/
 example : pnLoadOrder (dictRT witnessDflt witnessPN 100) = [100, 101, 100, 100, 102, 100, 100, 101, 102, 103] := by
   decide
-example : (walk (erase (fun _ => []) (dictRT witnessDflt witnessPN 100))).map (·.2) = [100, 102, 100, 100, 101] := by
+example : (walk (pnErase (fun _ => []) (dictRT witnessDflt witnessPN 100))).map (·.2) = [100, 102, 100, 100, 101] := by
   decide
-example : paths (erase (fun _ => []) (dictRT witnessDflt witnessPN 100)) =
+example : paths (pnErase (fun _ => []) (dictRT witnessDflt witnessPN 100)) =
     [["g", "a"], ["h", "pos", "pos_1"], ["h", "r", "left_"], ["h", "r", "right_"], ["h", "pos", "pos_0"]] := by decide
 example : pnLoadOrder (dictRTn witnessDflt witnessPN 100 50 3) = [200, 201, 200, 200, 202, 200, 200, 201, 202, 203] := by
   decide
@@ -360,8 +360,8 @@ example : assertVerdicts (V := Nat) ⟨fun _ a b => a + b, fun _ a => a, fun a b
     (fun _ => []) (fun i => .num (if i = 7 then 1 else if i = 5 then 2 else if i = 3 then 4 else 3)) witnessPN = [false, false] := by
   decide
 example : Nat.repeat pickleRT 3 witnessPN = witnessPN := identity_copy_roundtrips pickleRT (fun _ => rfl) 3 witnessPN
-example : NoArith (erase (fun _ => []) (PN.model "lib.P2" [("a", .prior 7 ⟨.gaussian, 0, 1, 2, 3⟩), ("b", .prior 7 ⟨.gaussian, 0, 1, 2, 3⟩)]
+example : NoArith (pnErase (fun _ => []) (PN.model "lib.P2" [("a", .prior 7 ⟨.gaussian, 0, 1, 2, 3⟩), ("b", .prior 7 ⟨.gaussian, 0, 1, 2, 3⟩)]
     [.arith "GreaterThanLessThanAssertion" "lower" "greater" (.prior 5 ⟨.uniform, 0, 1, 0, 0⟩) (.prior 7 ⟨.gaussian, 0, 1, 2, 3⟩)] : PN Nat)) := by
-  simp [erase, eraseAttrs, NoArith, NoArithAttrs]
+  simp [pnErase, pnEraseAttrs, NoArith, NoArithAttrs]
 
 end AF.C08
